@@ -268,8 +268,36 @@ def generate(rng, n, tier):
         yield {"seed": rng.randrange(10 ** 9), "join": i % 3 == 0}
     yield {"fixed": ["t = T('t')", "q0 = PostgreSQLQuery.into(t).insert(1)", "r = q0.returning(fn.Sum(t.a) + t.b)"],
            "expect": "QueryException", "guard": "pg_returning_mixed_aggregate"}
+    for lines, expect, guard in FIXED_SCENARIOS:
+        yield {"fixed": lines, "expect": expect, "guard": guard}
     yield {"fixed": ["sub = Query.from_(T('q')).select('a')", "q0 = Query.from_(T('t')).select('a')", "r = q0.join(sub).on(sub.a == T('zz').a)"],
            "expect": "JoinException", "guard": "join"}
+
+
+# both polarities of guards whose decision goes through table identity or through the set of joined tables
+FIXED_SCENARIOS = [
+    # two separately built but equal temporal tables are the same table for the join guard …
+    (["t1 = T('t').for_(SystemTimeValue().as_of('2020-01-01'))", "t2 = T('t').for_(SystemTimeValue().as_of('2020-01-01'))",
+      "u = T('u')", "q0 = Query.from_(t1).select('a')", "r = q0.join(u).on(t2.a == u.a)"], None, "join"),
+    (["t1 = T('t').for_portion(SystemTimeValue().from_to('2020-01-01', '2020-02-01'))",
+      "t2 = T('t').for_portion(SystemTimeValue().from_to('2020-01-01', '2020-02-01'))",
+      "u = T('u')", "q0 = Query.from_(u).join(t1).on(u.a == t1.a).select('a')", "r = q0.join(T('v')).on(t2.a == T('v').a)"], None, "join"),
+    # … and tables that differ in the temporal clause are not
+    (["t1 = T('t').for_(SystemTimeValue().as_of('2020-01-01'))", "t2 = T('t').for_(SystemTimeValue().as_of('2021-01-01'))",
+      "u = T('u')", "q0 = Query.from_(t1).select('a')", "r = q0.join(u).on(t2.a == u.a)"], "JoinException", "join"),
+    (["t1 = T('t').for_(SystemTimeValue().as_of('2020-01-01'))", "t2 = T('t').for_(SystemTimeValue().as_of('2020-01-01'))",
+      "q0 = PostgreSQLQuery.update(t1).set('a', 1)", "r = q0.returning(t2.a)"], None, "pg_returning"),
+    # RETURNING of an UPDATE with joins: terms over the updated and the joined tables are accepted, foreign tables are not
+    (["t = T('abc')", "u = T('bcd')", "q0 = PostgreSQLQuery.update(t).join(u).on(t.id == u.id).set(t.a, 1)",
+      "r = q0.returning(t.total + u.amount)"], None, "pg_returning"),
+    (["t = T('abc')", "u = T('bcd')", "q0 = PostgreSQLQuery.update(t).join(u).on(t.id == u.id).set(t.a, 1)",
+      "r = q0.returning(fn.Coalesce(u.amount, t.total), u.amount, t.total)"], None, "pg_returning"),
+    (["t = T('abc')", "u = T('bcd')", "q0 = PostgreSQLQuery.update(t).join(u).using('id').set(t.a, 1)",
+      "r = q0.returning(t.total)"], None, "pg_returning"),
+    (["t = T('abc')", "u = T('bcd')", "q0 = PostgreSQLQuery.update(t).join(u).on(t.id == u.id).set(t.a, 1)",
+      "r = q0.returning(t.total + T('zzz').x)"], "QueryException", "pg_returning"),
+    (["t = T('abc')", "q0 = PostgreSQLQuery.into(t).insert(1)", "r = q0.returning(T('zzz').x)"], "QueryException", "pg_returning"),
+]
 
 
 def snapshot(env, names):
